@@ -381,13 +381,16 @@ class SeqCheck:
                 cmd = [os.path.join(BIN, hbin)] + extra + ["-seed", str(seed * 1000 + s), "-n", str(per), "-out", out] + self.gen_args(tier)
                 procs.append((subprocess.Popen(cmd, stdout=subprocess.PIPE, stderr=subprocess.STDOUT, text=True,
                                                env=dict(os.environ, **self.harness_env())), out, cmd))
+            # one time limit for all shards together (they run in parallel): a hanging implementation costs the limit once
+            limit = self.harness_timeout if tier == "thorough" else min(self.harness_timeout, 450)
+            t_end = time.time() + limit
             for p, out, cmd in procs:
                 try:
-                    o, _ = p.communicate(timeout=self.harness_timeout)
+                    o, _ = p.communicate(timeout=max(1.0, t_end - time.time()))
                 except subprocess.TimeoutExpired:
                     p.kill()
                     o, _ = p.communicate()
-                    o = (o or "") + "\nHARNESS TIMED OUT after %d s (deadlock or livelock in the implementation?)" % self.harness_timeout
+                    o = (o or "") + "\nHARNESS TIMED OUT after %d s (deadlock or livelock in the implementation?)" % limit
                 if p.returncode != 0:
                     log("harness failed:", " ".join(cmd))
                     log(o[-3000:])
